@@ -19,7 +19,39 @@ const STUB: [&str; 4] = [
 ];
 
 pub fn all() -> Vec<Property> {
-    vec![c01(), c07(), c08(), c09(), c10()]
+    vec![c01(), c02(), c07(), c08(), c09(), c10()]
+}
+
+fn c02() -> Property {
+    Property {
+        id: "C02",
+        level: "exploration",
+        variants: vec![
+            Variant {
+                name: "pair-seeded-outcomes",
+                weight: 1,
+                make: || Box::pin(scen::c02::run_pair()),
+                max_steps: 3_000_000,
+                note: "real sender <-> real receiver applying seeded outcomes",
+            },
+            Variant {
+                name: "scripted-receiver-disposition-histories",
+                weight: 1,
+                make: || Box::pin(scen::c02::run_scripted_receiver()),
+                max_steps: 3_000_000,
+                note: "real sender(s) <-> scripted receiver producing arbitrary disposition histories",
+            },
+        ],
+        quick_runs: 6_000,
+        thorough_runs: 300_000,
+        rule: "one run = 1-3 links, 1-20 deliveries each with its own distinguishable planned outcome (accepted, rejected with a unique description, released, modified with seeded flags), every snd/rcv settle-mode combination, sends that are plain or batchable with outcomes awaited in a seeded order, and either a real receiver disposing one by one / in *_all batches / out of order / through the disposer / late, or a scripted receiver issuing single-id, range (also spanning links), duplicate, non-terminal-first, unsettled-then-settled and unknown-id dispositions; every run is non-trivial; distinct = distinct event-log hash",
+        assumptions: vec![
+            "retention of settled deliveries in the unsettled maps is observed only through its visible effects (a repeated disposition must not change a resolved send; mode-second echoes on the wire), not through the resume path",
+        ],
+        real_components: REAL.to_vec(),
+        stub_components: STUB.to_vec(),
+        expected_probes: vec!["settling-echo-checked", "range-disposition", "non-terminal-disposition-first", "disposition-for-unknown-id", "repeated-disposition-for-settled-id", "unsettled-then-settled"],
+    }
 }
 
 fn c10() -> Property {
